@@ -85,3 +85,7 @@ pub fn vec_to_array<const N: usize>(v: &Vec<u8>, lo: usize, hi: usize) -> (r: [u
 {
     v[lo..hi].try_into().expect("slice should be same length as array")
 }
+
+// derived PartialEq of std::cmp::Ordering is structural equality
+pub assume_specification [<Ordering as PartialEq>::eq] (a: &Ordering, b: &Ordering) -> (r: bool)
+    ensures r == (*a == *b);
